@@ -49,6 +49,7 @@ def main():
                 cmd += ["--wall", opts["wall"]]
             c = run(cmd, env=e, cwd=VERIF, timeout=3600)
             sigs = [l.strip().split(" ")[0].replace("signature=", "") for l in c.stdout.splitlines() if l.strip().startswith("signature=")]
+            sigs += ["regression:" + l.strip().split(" ")[1] for l in c.stdout.splitlines() if l.strip().startswith("regression: ")]
             viol = any(l.startswith("VIOLATION property=%s" % prop) for l in c.stdout.splitlines())
             outcome = "DETECTED" if (c.returncode == 1 and viol) else ("HARNESS-ERROR" if c.returncode == 2 else "MISSED")
             r = {"id": sid, "property": prop, "outcome": outcome, "signatures": sigs[:6], "check_exit": c.returncode,
